@@ -216,10 +216,78 @@ fn history_case(ctx: &mut Ctx, case: u64, rng: &mut Rng, scratch: &Scratch) {
         // monitor: heads == per-author maximum over the actual dump, for both documents
         for (dd, u) in unis.iter().enumerate() {
             let id = u.ns.id();
-            let (hd, dm) = match (heads(&mut store, id), dump(&mut store, id)) {
-                (Ok(h), Ok(d)) => (h, d),
-                (a, b) => {
-                    ctx.violation(case, "heads-or-dump-failed", json!({"heads": format!("{:?}", a.err()), "dump": format!("{:?}", b.err())}));
+            // heads and news detection are read first, through the open transaction: the dump
+            // that follows goes through a snapshot and commits the batch
+            let hd = match heads(&mut store, id) {
+                Ok(h) => h,
+                Err(e) => {
+                    ctx.violation(case, "heads-or-dump-failed", json!({"heads": format!("{e:?}")}));
+                    return;
+                }
+            };
+            {
+                let want: BTreeMap<[u8; 32], u64> = hd.iter().map(|(a, (t, _))| (*a, *t)).collect();
+                // news detection judged against the heads actually held
+                for _ in 0..3 {
+                    let mut report = AuthorHeads::default();
+                    let mut expect = 0u64;
+                    let mut spec = vec![];
+                    for (a, t) in want.iter() {
+                        match rng.below(5) {
+                            0 => {}
+                            1 => {
+                                report.insert(AuthorId::from(a), *t);
+                                spec.push("equal");
+                            }
+                            2 => {
+                                report.insert(AuthorId::from(a), *t + 1);
+                                expect += 1;
+                                spec.push("newer");
+                            }
+                            3 => {
+                                report.insert(AuthorId::from(a), t.saturating_sub(1));
+                                spec.push("older");
+                            }
+                            _ => {
+                                report.insert(AuthorId::from(a), *t + 1 + rng.below(3) as u64);
+                                expect += 1;
+                                spec.push("newer");
+                            }
+                        }
+                    }
+                    if rng.chance(1, 2) {
+                        // an author that is unknown locally (one of the other universe's extra authors or random)
+                        let unknown = rng.fill32();
+                        if !want.contains_key(&unknown) {
+                            report.insert(AuthorId::from(&unknown), rng.below(10) as u64);
+                            expect += 1;
+                            spec.push("unknown");
+                        }
+                    }
+                    ctx.count("news_checks", 1);
+                    match store.has_news_for_us(id, &report) {
+                        Err(e) => {
+                            ctx.violation(case, "has-news-failed", json!({"err": format!("{e:?}")}));
+                            return;
+                        }
+                        Ok(got) => {
+                            let got = got.map(|n| n.get()).unwrap_or(0);
+                            if got != expect {
+                                ctx.violation(
+                                    case,
+                                    "news-count-differs",
+                                    json!({"doc": dd, "step": step, "report": spec, "expected": expect, "got": got, "trace": trace}),
+                                );
+                                return;
+                            }
+                        }
+                    }
+                }
+            }
+            let dm = match dump(&mut store, id) {
+                Ok(d) => d,
+                Err(e) => {
+                    ctx.violation(case, "heads-or-dump-failed", json!({"dump": format!("{e:?}")}));
                     return;
                 }
             };
@@ -248,62 +316,6 @@ fn history_case(ctx: &mut Ctx, case: u64, rng: &mut Rng, scratch: &Scratch) {
                         "expected": want.iter().map(|(a, t)| format!("{}@{}", hex::encode(&a[..2]), t % 1_000_000)).collect::<Vec<_>>()}),
                 );
                 return;
-            }
-            // news detection judged against the heads actually held
-            for _ in 0..3 {
-                let mut report = AuthorHeads::default();
-                let mut expect = 0u64;
-                let mut spec = vec![];
-                for (a, t) in want.iter() {
-                    match rng.below(5) {
-                        0 => {}
-                        1 => {
-                            report.insert(AuthorId::from(a), *t);
-                            spec.push("equal");
-                        }
-                        2 => {
-                            report.insert(AuthorId::from(a), *t + 1);
-                            expect += 1;
-                            spec.push("newer");
-                        }
-                        3 => {
-                            report.insert(AuthorId::from(a), t.saturating_sub(1));
-                            spec.push("older");
-                        }
-                        _ => {
-                            report.insert(AuthorId::from(a), *t + 1 + rng.below(3) as u64);
-                            expect += 1;
-                            spec.push("newer");
-                        }
-                    }
-                }
-                if rng.chance(1, 2) {
-                    // an author that is unknown locally (one of the other universe's extra authors or random)
-                    let unknown = rng.fill32();
-                    if !want.contains_key(&unknown) {
-                        report.insert(AuthorId::from(&unknown), rng.below(10) as u64);
-                        expect += 1;
-                        spec.push("unknown");
-                    }
-                }
-                ctx.count("news_checks", 1);
-                match store.has_news_for_us(id, &report) {
-                    Err(e) => {
-                        ctx.violation(case, "has-news-failed", json!({"err": format!("{e:?}")}));
-                        return;
-                    }
-                    Ok(got) => {
-                        let got = got.map(|n| n.get()).unwrap_or(0);
-                        if got != expect {
-                            ctx.violation(
-                                case,
-                                "news-count-differs",
-                                json!({"doc": dd, "step": step, "report": spec, "expected": expect, "got": got, "trace": trace}),
-                            );
-                            return;
-                        }
-                    }
-                }
             }
         }
     }
